@@ -373,4 +373,237 @@ Theorem fd_then_rnea_zero (t : tree X) :
 Proof. intros Hok. rewrite rnea_of_fd_is_Rsub, flatten_tmap. apply Forall_map.
   destruct (fd_sub t Hok (vzero K, [])) as [_ Hz]. exact Hz. Qed.
 End FD.
+
+(** ** weak-form specification of inverse dynamics, from the generalised adjoint identity *)
+Lemma dotU_lsub_l a b w : dotU K (lsub K A a b) w = dotU K a w - dotU K b w.
+Proof. rewrite dotU_comm, dotU_lsub_r, !(dotU_comm w). reflexivity. Qed.
+Lemma tsum_minus {Y} (f g : Y -> R) t : tsum (tmap (fun x => f x - g x) t) = tsum (tmap f t) - tsum (tmap g t).
+Proof. rewrite (tmap_ext (fun x => f x - g x) (fun x => f x + (-1) * g x)) by (intros; lra).
+  rewrite tsum_plus, tsum_scale. lra. Qed.
+Lemma tmap_fst_inward {A0 B0} (g : A0 -> list (A0 * B0) -> B0) t : tmap fst (inward g t) = t.
+Proof. induction t as [a cs IH] using tree_ind'. cbn. f_equal. rewrite map_map.
+  induction cs as [|c r IHr]; cbn; auto. inversion IH; subst. f_equal; auto. Qed.
+
+(** two outward passes run one after the other may be run in either order *)
+Lemma swap_passes {X B C} (f : B -> X -> B) (g : C -> X -> C) (ph : X -> B -> C -> R) (t : tree X) b0 c0 :
+  tsum (tmap (fun r => ph (fst (fst r)) (snd (fst r)) (snd r)) (outward (fun c ab => g c (fst ab)) c0 (outward f b0 t)))
+  = tsum (tmap (fun r => ph (fst (fst r)) (snd r) (snd (fst r))) (outward (fun b ac => f b (fst ac)) b0 (outward g c0 t))).
+Proof.
+  transitivity (tsum (tmap (fun r => ph (fst r) (fst (snd r)) (snd (snd r))) (outward (fun bc a => (f (fst bc) a, g (snd bc) a)) (b0, c0) t))).
+  - rewrite <- (outward_outward f g t b0 c0), tmap_tmap. reflexivity.
+  - pose proof (outward_conj (fun cb a => (g (fst cb) a, f (snd cb) a)) (fun bc a => (f (fst bc) a, g (snd bc) a))
+                   (fun p => (snd p, fst p)) (fun b a => eq_refl) t (c0, b0)) as E. cbn [fst snd] in E. rewrite <- E.
+    rewrite <- (outward_outward g f t c0 b0), !tmap_tmap. reflexivity.
+Qed.
+(** a sum that only looks at the second pass does not need the first *)
+Lemma drop_first_pass {X B C} (f : B -> X -> B) (g : C -> X -> C) (ph : X -> C -> R) (t : tree X) b0 c0 :
+  tsum (tmap (fun r => ph (fst (fst r)) (snd r)) (outward (fun c ab => g c (fst ab)) c0 (outward f b0 t)))
+  = tsum (tmap (fun r => ph (fst r) (snd r)) (outward g c0 t)).
+Proof.
+  transitivity (tsum (tmap (fun r => ph (fst r) (snd (snd r))) (outward (fun bc a => (f (fst bc) a, g (snd bc) a)) (b0, c0) t))).
+  - rewrite <- (outward_outward f g t b0 c0), tmap_tmap. reflexivity.
+  - pose proof (outward_conj (fun bc a => (f (fst bc) a, g (snd bc) a)) g (fun p => snd p) (fun b a => eq_refl) t (b0, c0)) as E.
+    cbn [fst snd] in E. rewrite <- E. rewrite tmap_tmap. reflexivity.
+Qed.
+
+Section Spec.
+Context {X : Type} (nd : X -> node V L I) (dy : X -> dyn R V).
+Let nd1 (xv : X * V) := nd (fst xv).
+Notation mulJt_adj := (mulJt_adjoint K s0_is sadd_is smul_is dot_add_l dot_add_r dot_scale_r dot_zero_r dot_zero_l phi_adj).
+Notation adj_gen := (adjoint_gen K s0_is sadd_is smul_is dot_add_l dot_add_r dot_scale_r dot_zero_r dot_zero_l phi_adj).
+
+(** for all test speeds v:  v . tau  =  sum_b < Mk A_b + b_b - F_b , (J v)_b >  -  v . f *)
+Theorem rnea_weak (ud v : X -> list R) (t : tree X) :
+  tsum (tmap (fun r => dotU K (snd r) (v (fst (fst (fst r))))) (rnea K A nd dy ud t))
+  = tsum (tmap (fun xw => dot K (rnea_force K A nd dy (fst xw)) (snd xw)) (mulJ K nd1 (fun xv => v (fst xv)) (rnea_acc K nd dy ud t)))
+    - tsum (tmap (fun xa => dotU K (d_f (dy (fst xa))) (v (fst xa))) (rnea_acc K nd dy ud t)).
+Proof.
+  unfold rnea. rewrite tmap_tmap. cbn [fst snd].
+  rewrite (tmap_ext _ (fun xz : (X * V) * V => dotU K (Htmul K (n_H (nd (fst (fst xz)))) (snd xz)) (v (fst (fst xz)))
+                                               - dotU K (d_f (dy (fst (fst xz)))) (v (fst (fst xz)))))
+    by (intros; apply dotU_lsub_l).
+  rewrite tsum_minus. f_equal.
+  - rewrite (mulJt_adj nd1 (fun xv => v (fst xv)) (rnea_force K A nd dy) (rnea_acc K nd dy ud t)).
+    unfold mulJt. rewrite tmap_tmap. reflexivity.
+  - rewrite <- (tmap_fst_inward (gather K nd1 (rnea_force K A nd dy)) (rnea_acc K nd dy ud t)) at 2.
+    rewrite tmap_tmap. reflexivity.
+Qed.
+
+(** the spatial momentum-like field  Mk (J v)_b  on the tree of test velocities *)
+Definition MW (xw : X * V) : V := mapply K (n_M (nd (fst xw))) (snd xw).
+
+(** WEAK-FORM SPECIFICATION of inverse dynamics, for every tree: for all test speeds v
+      v . tau(udot)  =  udot . (M v)  +  sum_b < Z_b(v), a_b >  +  sum_b < b_b - F_b, (J v)_b >  -  v . f
+    with Z(v) the inward accumulation of Mk (J v).  Hence the residual is affine in udot with linear part M
+    (M is symmetric: C01), applied body forces enter exactly as -J^T F, mobility forces as -f, and the remaining
+    velocity-dependent part is linear in the Coriolis accelerations a_b and gyroscopic forces b_b. *)
+Theorem rnea_spec (ud v : X -> list R) (t : tree X) :
+  tsum (tmap (fun r => dotU K (snd r) (v (fst (fst (fst r))))) (rnea K A nd dy ud t))
+  = tsum (tmap (fun r => dotU K (snd r) (ud (fst (fst r)))) (mulM K nd v t))
+    + tsum (tmap (fun r => dot K (snd r) (d_a (dy (fst (fst r))))) (accum K nd1 MW (mulJ K nd v t)))
+    + tsum (tmap (fun xw => dot K (vsub K A (d_g (dy (fst xw))) (d_F (dy (fst xw)))) (snd xw)) (mulJ K nd v t))
+    - tsum (tmap (fun x => dotU K (d_f (dy x)) (v x)) t).
+Proof.
+  rewrite rnea_weak. f_equal.
+  2:{ rewrite <- (tmap_fst_outward (fun Vpar x => vadd K (vadd K (phiT K (n_l (nd x)) Vpar) (Hmul K (n_H (nd x)) (ud x))) (d_a (dy x))) (vzero K) t) at 2.
+      rewrite tmap_tmap. reflexivity. }
+  set (stepA := fun Vpar x => vadd K (vadd K (phiT K (n_l (nd x)) Vpar) (Hmul K (n_H (nd x)) (ud x))) (d_a (dy x))).
+  set (stepW := fun Vpar x => vadd K (vadd K (phiT K (n_l (nd x)) Vpar) (Hmul K (n_H (nd x)) (v x))) (vzero K)).
+  (* split the body force field *)
+  rewrite (tmap_ext _ (fun xw : (X * V) * V => dot K (mapply K (n_M (nd (fst (fst xw)))) (snd (fst xw))) (snd xw)
+                          + dot K (vsub K A (d_g (dy (fst (fst xw)))) (d_F (dy (fst (fst xw))))) (snd xw))).
+  2:{ intros [[x a0] w]. unfold rnea_force. cbn [fst snd]. rewrite !dot_vsub_l, !dot_add_l. lra. }
+  rewrite tsum_plus. f_equal.
+  2:{ exact (drop_first_pass stepA stepW (fun x w => dot K (vsub K A (d_g (dy x)) (d_F (dy x))) w) t (vzero K) (vzero K)). }
+  (* the inertial part: run the two passes in the other order and apply the generalised adjoint identity *)
+  transitivity (tsum (tmap (fun r : (X * V) * V => dot K (MW (fst r)) (snd r))
+                           (kin K nd1 (fun xw => ud (fst xw)) (fun xw => d_a (dy (fst xw))) (vzero K) (mulJ K nd v t)))).
+  { etransitivity; [exact (swap_passes stepA stepW (fun x a0 w => dot K (mapply K (n_M (nd x)) a0) w) t (vzero K) (vzero K))|].
+    apply f_equal. apply tmap_ext. intros [[x w] a0]. unfold MW. cbn [fst snd]. rewrite M_sym. apply dot_sym. }
+  rewrite (adj_gen nd1 (fun xw => ud (fst xw)) (fun xw => d_a (dy (fst xw))) MW (mulJ K nd v t) (vzero K)).
+  rewrite (dot_sym _ (phiT K _ (vzero K))), phiT_adj, dot_zero_l, Rplus_0_l.
+  rewrite tsum_plus. f_equal.
+  unfold mulM, mulJt. rewrite tmap_tmap. reflexivity.
+Qed.
+
+(** the residual is affine in udot: the udot-dependent part is udot . (M v) *)
+Corollary rnea_affine_in_udot (ud v : X -> list R) (t : tree X) :
+  tsum (tmap (fun r => dotU K (snd r) (v (fst (fst (fst r))))) (rnea K A nd dy ud t))
+  = tsum (tmap (fun r => dotU K (snd r) (ud (fst (fst r)))) (mulM K nd v t))
+    + tsum (tmap (fun r => dotU K (snd r) (v (fst (fst (fst r))))) (rnea K A nd dy (fun _ => []) t)).
+Proof.
+  rewrite !rnea_spec.
+  assert (E0 : tsum (tmap (fun r : (X * V) * list R => dotU K (snd r) []) (mulM K nd v t)) = 0).
+  { rewrite (tmap_ext _ (fun _ => 0 * 0)) by (intros; rewrite dotU_nil_r; lra). rewrite tsum_scale. lra. }
+  rewrite E0. lra.
+Qed.
+End Spec.
+
+(** ** forward dynamics solves the equations of motion, with the same velocity terms as inverse dynamics *)
+Lemma dotU_zeros {B} (H : list B) u : dotU K (map (fun _ => 0) H) u = 0.
+Proof. revert u. induction H as [|h H IH]; intros [|x u]; cbn [map dotU]; rewrite ?s0_is; auto.
+  rewrite IH, sadd_is, smul_is. ring. Qed.
+Lemma lsum_zero {B} (f : B -> R) l : Forall (fun b => f b = 0) l -> lsum (map f l) = 0.
+Proof. induction 1; cbn [map]; [reflexivity|]. rewrite lsum_cons. lra. Qed.
+Lemma tsum_const0 {Y} (t : tree Y) : tsum (tmap (fun _ => 0) t) = 0.
+Proof. rewrite (tmap_ext (fun _ : Y => 0) (fun _ => 0 * 0)) by (intros; lra). rewrite tsum_scale. lra. Qed.
+
+Section EOM.
+Context {X : Type} (nd : X -> node V L I) (dy : X -> dyn R V).
+Notation WT := (((X * abi R V P) * zrec R V) * (V * list R))%type.
+Let ndw (w : WT) := nd (w_x w).
+Let dyw (w : WT) := dy (w_x w).
+(** the same bodies with only their velocity-dependent inputs: no applied forces *)
+Definition dy_bias (w : WT) : dyn R V := mkDyn (d_a (dyw w)) (d_g (dyw w)) (vzero K) [].
+
+(** for all test speeds v:   udot_fd . (M v)  +  v . tau(udot=0, F=0, f=0)  =  sum_b <F_b, (J v)_b>  +  v . f
+    i.e.  M udot + C(q,u) = J^T F + f  with C the zero-acceleration, zero-force value of inverse dynamics:
+    the velocity-dependent terms are the same in both directions and body forces enter as J^T F. *)
+Theorem fd_satisfies_eom (v : X -> list R) (t : tree X) :
+  (forall y, In y (flatten (abi_pass K A nd t)) -> node_ok nd dy y) ->
+  let vw := fun w : WT => v (w_x w) in
+  tsum (tmap (fun r => dotU K (snd r) (w_ud (fst (fst r)))) (mulM K ndw vw (fd K A nd dy t)))
+  + tsum (tmap (fun r => dotU K (snd r) (vw (fst (fst (fst r))))) (rnea K A ndw dy_bias (fun _ => []) (fd K A nd dy t)))
+  = tsum (tmap (fun xw => dot K (d_F (dyw (fst xw))) (snd xw)) (mulJ K ndw vw (fd K A nd dy t)))
+    + tsum (tmap (fun w => dotU K (d_f (dyw w)) (vw w)) (fd K A nd dy t)).
+Proof.
+  intros Hok vw.
+  pose proof (rnea_spec ndw dyw w_ud vw (fd K A nd dy t)) as E1.
+  assert (Z1 : tsum (tmap (fun r => dotU K (snd r) (vw (fst (fst (fst r))))) (rnea K A ndw dyw w_ud (fd K A nd dy t))) = 0).
+  { rewrite tsum_flatten. apply lsum_zero. pose proof (fd_then_rnea_zero nd dy t Hok) as Hz. unfold rnea_of_fd in Hz.
+    eapply Forall_impl; [|exact Hz]. intros r Hr. cbv beta in *. etransitivity; [|apply (dotU_zeros (n_H (nd (w_x (fst (fst (fst r))))))) ]. f_equal. exact Hr. }
+  rewrite Z1 in E1. clear Z1.
+  rewrite (rnea_spec ndw dy_bias (fun _ => []) vw (fd K A nd dy t)).
+  rewrite (tmap_ext (fun r : (WT * V) * list R => dotU K (snd r) []) (fun _ => 0)) by (intros; apply dotU_nil_r).
+  rewrite tsum_const0.
+  rewrite (tmap_ext (fun x : WT => dotU K (d_f (dy_bias x)) (vw x)) (fun _ => 0)) by (intros; cbn; apply s0_is).
+  rewrite tsum_const0.
+  rewrite (tmap_ext (fun xw : WT * V => dot K (vsub K A (d_g (dy_bias (fst xw))) (d_F (dy_bias (fst xw)))) (snd xw))
+                    (fun xw => dot K (d_g (dyw (fst xw))) (snd xw)))
+    by (intros; cbn [dy_bias d_g d_F]; rewrite dot_vsub_l, dot_zero_l; lra).
+  rewrite (tmap_ext (fun xw : WT * V => dot K (vsub K A (d_g (dyw (fst xw))) (d_F (dyw (fst xw)))) (snd xw))
+                    (fun xw => dot K (d_g (dyw (fst xw))) (snd xw) - dot K (d_F (dyw (fst xw))) (snd xw))) in E1
+    by (intros; apply dot_vsub_l).
+  rewrite tsum_minus in E1. cbn [dy_bias d_a].
+  match type of E1 with 0 = ?a + ?b + (?c - ?d) - ?e => enough (G : a + (0 + b + c - 0) = d + e) by exact G; lra end.
+Qed.
+End EOM.
+
+(** ** the inverse mass matrix operator:  M (M^-1 f) = f *)
+Lemma vadd_zero_r a : vadd K a (vzero K) = a.
+Proof. apply dot_ext; intro y. rewrite dot_add_l, dot_zero_l. lra. Qed.
+Lemma papply_zero p : papply A p (vzero K) = vzero K.
+Proof. apply dot_ext; intro y. rewrite P_sym, !dot_zero_l. reflexivity. Qed.
+Lemma vsub_zero_r a : vsub K A a (vzero K) = a.
+Proof. apply dot_ext; intro y. rewrite dot_vsub_l, dot_zero_l. lra. Qed.
+Lemma inward_ext {A0 B0} (g g' : A0 -> list (A0 * B0) -> B0) : (forall a rs, g a rs = g' a rs) -> forall t, inward g t = inward g' t.
+Proof. intros E. induction t as [a cs IH] using tree_ind'. cbn.
+  assert (Ec : map (inward g) cs = map (inward g') cs).
+  { induction cs as [|c r IHr]; cbn; auto. inversion IH; subst. f_equal; auto. }
+  rewrite Ec, E. reflexivity. Qed.
+Lemma outward_ext {A0 B0} (f f' : B0 -> A0 -> B0) : (forall b a, f b a = f' b a) -> forall t b, outward f b t = outward f' b t.
+Proof. intros E. induction t as [a cs IH] using tree_ind'. intros b. cbn. rewrite E. f_equal.
+  induction cs as [|c r IHr]; cbn; auto. inversion IH; subst. f_equal; auto. Qed.
+Lemma lsub_zero_eq {B} : forall (a f : list R) (H : list B), length a = length f -> lsub K A a f = map (fun _ => 0) H -> a = f.
+Proof. induction a as [|x a IH]; intros [|y f] H E Hz; cbn in *; auto; try discriminate.
+  destruct H as [|h H]; cbn in Hz; [discriminate|]. injection Hz as Hx Hr. f_equal.
+  - unfold ssub in Hx. rewrite sadd_is, sneg_is in Hx. lra.
+  - apply (IH f H); auto. Qed.
+
+Lemma Forall_impl2 {B} (P0 Q0 R0 : B -> Prop) l : (forall x, P0 x -> Q0 x -> R0 x) -> Forall P0 l -> Forall Q0 l -> Forall R0 l.
+Proof. intros E HP HQ. induction l as [|x l IH]; [constructor|]. inversion HP; inversion HQ; subst. constructor; auto. Qed.
+
+Section MINV.
+Context {X : Type} (nd : X -> node V L I) (dy : X -> dyn R V).
+Notation WT := (((X * abi R V P) * zrec R V) * (V * list R))%type.
+Let ndw (w : WT) := nd (w_x w).
+(** only the mobility forces: no velocities, no body forces *)
+Definition dy_f (x : X) : dyn R V := mkDyn (vzero K) (vzero K) (vzero K) (d_f (dy x)).
+
+Lemma mulMInv_is_fd t : mulMInv K A nd dy t = fd K A nd dy_f t.
+Proof. unfold mulMInv, fd, fd2_pass, fd1_pass.
+  rewrite (inward_ext (mi1_step K A nd dy) (fd1_step K A nd dy_f)).
+  2:{ intros y rs. unfold mi1_step, fd1_step. cbn [dy_f d_a d_g d_F d_f]. rewrite papply_zero, vadd_zero_r, vsub_zero_r. reflexivity. }
+  apply outward_ext. intros b w. unfold mi2_step, fd2_step. cbn [dy_f d_a]. rewrite vadd_zero_r. reflexivity. Qed.
+
+(** M * (M^-1 f) = f at every mobility, for every tree (under the same per-body hypothesis on the computed inverses) *)
+Theorem mulM_mulMInv_id (t : tree X) :
+  (forall y, In y (flatten (abi_pass K A nd t)) -> node_ok nd dy y) ->
+  Forall (fun r => snd r = d_f (dy (w_x (fst (fst r))))) (flatten (mulM_of_mulMInv K A nd dy t)).
+Proof.
+  intros Hok. unfold mulM_of_mulMInv. rewrite mulMInv_is_fd.
+  assert (Hok' : forall y, In y (flatten (abi_pass K A nd t)) -> node_ok nd dy_f y) by (intros y Hy; exact (Hok y Hy)).
+  pose proof (fd_then_rnea_zero nd dy_f t Hok') as Hz. unfold rnea_of_fd, rnea, rnea_acc in Hz.
+  rewrite flatten_tmap in Hz. apply Forall_map in Hz. cbn [fst snd] in Hz.
+  (* the inverse-dynamics accumulation without velocities and body forces is the accumulation of multiplyByM *)
+  assert (EA : accum K (fun xv : WT * V => nd (w_x (fst xv))) (rnea_force K A (fun w : WT => nd (w_x w)) (fun w : WT => dy_f (w_x w)))
+                 (kin K (fun w : WT => nd (w_x w)) w_ud (fun w : WT => d_a (dy_f (w_x w))) (vzero K) (fd K A nd dy_f t))
+             = accum K (fun xv : WT * V => ndw (fst xv)) (fun xv : WT * V => mapply K (n_M (ndw (fst xv))) (snd xv))
+                 (mulJ K ndw w_ud (fd K A nd dy_f t))).
+  { unfold accum. apply inward_ext. intros xv rs. unfold gather. f_equal.
+    unfold rnea_force. cbn [dy_f d_g d_F]. rewrite vadd_zero_r, vsub_zero_r. reflexivity. }
+  assert (Hz' : Forall (fun xz : (WT * V) * V => lsub K A (Htmul K (n_H (nd (w_x (fst (fst xz))))) (snd xz)) (d_f (dy (w_x (fst (fst xz)))))
+                                          = map (fun _ => 0) (n_H (nd (w_x (fst (fst xz))))))
+                      (flatten (accum K (fun xv : WT * V => ndw (fst xv)) (fun xv : WT * V => mapply K (n_M (ndw (fst xv))) (snd xv))
+                                      (mulJ K ndw w_ud (fd K A nd dy_f t))))).
+  { rewrite <- EA. exact Hz. }
+  clear Hz EA. rename Hz' into Hz.
+  unfold mulM, mulJt. rewrite flatten_tmap. apply Forall_map.
+  (* lengths: one mobility force per mobility at every node of the forward-dynamics tree *)
+  assert (HL : Forall (fun xz : (WT * V) * V => length (d_f (dy (w_x (fst (fst xz))))) = length (n_H (nd (w_x (fst (fst xz))))))
+                      (flatten (accum K (fun xv : WT * V => ndw (fst xv)) (fun xv : WT * V => mapply K (n_M (ndw (fst xv))) (snd xv))
+                                      (mulJ K ndw w_ud (fd K A nd dy_f t))))).
+  { apply Forall_forall. intros xz Hin.
+    apply (in_map (fun xz : (WT * V) * V => fst (fst (fst (fst xz))))) in Hin.
+    rewrite <- flatten_tmap in Hin.
+    rewrite <- (tmap_tmap fst (fun xv : WT * V => fst (fst (fst xv)))) in Hin. unfold accum in Hin. rewrite tmap_fst_inward in Hin.
+    rewrite <- (tmap_tmap fst (fun w : WT => fst (fst w))) in Hin. unfold mulJ, kin in Hin. rewrite tmap_fst_outward in Hin.
+    rewrite <- (tmap_tmap fst (fun zw : (X * abi R V P) * zrec R V => fst zw)) in Hin. unfold fd, fd2_pass in Hin. rewrite tmap_fst_outward in Hin.
+    unfold fd1_pass in Hin. rewrite tmap_fst_inward in Hin.
+    destruct (Hok _ Hin) as [_ HLen]. exact HLen. }
+  refine (Forall_impl2 _ _ _ _ _ Hz HL). intros xz Hz1 HL1. cbn [fst snd] in *.
+  apply (lsub_zero_eq _ _ (n_H (nd (w_x (fst (fst xz)))))); [|exact Hz1].
+  rewrite Htmul_length. symmetry. exact HL1.
+Qed.
+End MINV.
 End Laws.
